@@ -616,7 +616,8 @@ Qed.
 
 Lemma popen_follow_bal fuel h base sub fl o : bal (Rfd o) o (popen_follow fz cfg fuel h base sub fl).
 Proof.
-  unfold popen_follow. destruct (path_strip_trailing_slash sub) as [sub' ts].
+  unfold popen_follow. destruct (_ || _); [constructor; hnf; apply Permutation_refl|].
+  destruct (path_strip_trailing_slash sub) as [sub' ts].
   eapply bal_bind_same; [apply perm_closed_Rfd|apply preadlink_bal|]. intros [bs|e]; [|apply popen_bal].
   destruct (path_split sub') as [[[parent [trailing|]]|e]|].
   2: { constructor. hnf. apply Permutation_refl. }
